@@ -1,6 +1,6 @@
 """C05 - literal zones pass through every pipeline byte-for-byte.
 
-Deciding step: exhaustive enumeration of ALL zone contents of <= L lines over 28 line atoms (tabs, NFD,
+Deciding step: exhaustive enumeration of ALL zone contents of <= L lines over 30 line atoms (tabs, NFD,
 backslash escapes, quotes, every operator and alias, ::, envelope markers, separators, shorter backtick
 runs, comments, blank/indented lines, CR, curly annotations) x fence lengths x info tags x placements
 (assignment value at depth 0..3, bare block child first/middle/last/after nested block, two zones),
@@ -39,6 +39,7 @@ ASSUMPTIONS = [
 ATOMS = [
     "x", "\tx", "é", "a\\nb", '"', '"""', "→ ⊕ ⧺ ⇌ ∧ ∨ §", "-> + ~ vs <-> | & #", "A::B", "===END===", "---", "``", "```",
     "//x", "§1::S", "[", "]", " lead", "trail ", "", "a\rb", "KEY::v", "    indented", "\\", "===X===", "META:", "NAME{q}", "````py",
+    "```e\u0301\u2126", "  ``` \u212b",      # shorter backtick run followed by NFC-unstable text (fence-shaped content line)
 ]
 TAGS = [None, "py", "a b"]
 PLACEMENTS = ["top", "block1", "block2", "section", "section_nested", "bare_first", "bare_middle", "bare_after_nested", "two_values", "two_bare"]
